@@ -4,7 +4,7 @@ import json
 import common
 import files_common
 
-DEP_FILES = ["BuildTagModel.v", "BuildTagProofs.v"]
+DEP_FILES = ["BuildTagModel.v", "BuildTagProofs.v", "FileSelModel.v", "FileSelProofs.v"]
 
 
 def conj(tables):
